@@ -671,12 +671,14 @@ func checkSequence(os_ outputSet, seqShapes []shape, mode string) (string, strin
 	}
 	// vacuity guard: the pools must really have handed the released records / buffers out again
 	if p.recHits < p.recExpected || p.bufHits < p.bufExpected {
-		return "harness:pool-reuse-not-in-effect", fmt.Sprintf("sequence [%s] mode %s: records reused %d (expected >= %d), backing buffers reused %d (expected >= %d)", seqNames(seqShapes), mode, p.recHits, p.recExpected, p.bufHits, p.bufExpected)
+		// not a verdict about the agent: the case is reported in the evidence notes as "reuse below the model's expectation"
+		// (a changed but correct pooling policy must not raise an alarm); the differential oracle above still applied
+		poolStats.belowExpectation++
 	}
 	return "", ""
 }
 
-var poolStats struct{ recHits, bufHits, records int64 }
+var poolStats struct{ recHits, bufHits, records, belowExpectation int64 }
 
 // checkAloneAcrossOutputs: one record alone; (a) identically configured outputs deliver identical records; (b) an
 // output delivers the same record whether it is the only output or one of two
@@ -816,7 +818,7 @@ func enumerate(ctx *seq.Ctx) {
 			}
 		}
 	}
-	ctx.Note(fmt.Sprintf("pool-reuse/worker-pid-%d", os.Getpid()), fmt.Sprintf("%d records processed in sequences, %d reused *LogRecord, %d reused backing buffers", poolStats.records, poolStats.recHits, poolStats.bufHits))
+	ctx.Note(fmt.Sprintf("pool-reuse/worker-pid-%d", os.Getpid()), fmt.Sprintf("%d records processed in sequences, %d reused *LogRecord, %d reused backing buffers, %d cases with reuse below the pool model's expectation", poolStats.records, poolStats.recHits, poolStats.bufHits, poolStats.belowExpectation))
 }
 
 var logCap = &hutil.LogCapture{}
